@@ -8,7 +8,8 @@ A history is a list of `(arrival tick, incoming message)`; list order is arrival
 One loop iteration of `_await_response` starting at tick `t`:
  1. (outer `fail_after`) `D ≤ t` → `TimeoutError`, completion at `D`;
  2. `cancellation_check`: the token fired at `c ≤ t` → one cancelled notification is
-    written, `CancelledError`, completion at `t`;
+    written, `CancelledError`, completion at `t` (write stream closed: nothing written, same
+    outcome; write stream blocked: the write is cut off by the deadline → `TimeoutError` at `D`);
  3. `receive()` under the sub-timeout: a message already arrived (`a ≤ t`) is consumed at
     `t`; the next arrival is consumed at `a` when it is in time for `min (t+P) D`
     (`≤` when scripted events precede timers at equal instants, `<` otherwise); else the
@@ -41,6 +42,16 @@ inductive In (α : Type) where
   | batch
   deriving Repr
 
+/-- what the write stream does with writes AFTER the first one (the request, or the cancelled
+notification of a call cancelled before sending): `open` accepts them; `closed` = the peer's end
+is gone, `send` raises (the code logs and goes on); `blocked` = the peer has stopped reading and
+the buffer is full, `send` does not return -/
+inductive Writer where
+  | open
+  | closed
+  | blocked
+  deriving DecidableEq, Repr
+
 structure Cfg (α : Type) where
   reqId : Id
   D : Nat
@@ -58,6 +69,8 @@ structure Cfg (α : Type) where
   eventsFirst : Bool
   /-- whether the k-th callback invocation raises -/
   cbRaises : Nat → Bool
+  /-- state of the write stream after the first write -/
+  writer : Writer := .open
 
 inductive Outcome (α : Type) where
   | returned (p : α)
@@ -106,6 +119,17 @@ def cancelVisible (cfg : Cfg α) (t : Nat) : Bool :=
 def arrivesInTime (cfg : Cfg α) (a lim : Nat) : Bool :=
   if cfg.eventsFirst then decide (a ≤ lim) else decide (a < lim)
 
+/-- `check_and_send_cancellation` once the token is seen fired at tick `t` (inside the outer
+`fail_after`): the notification is written and `CancelledError` raised; a `send` that raises is
+logged and `CancelledError` raised all the same, nothing written; a `send` that blocks is cut
+off by the outer deadline: `TimeoutError` at `D`, nothing written. -/
+def onCancel (cfg : Cfg α) (t : Nat) (ws : List Write) (cbs : List (α × Option α × Option α))
+    (n : Nat) : Obs α :=
+  match cfg.writer with
+  | .open => ⟨.cancelled, t, ws ++ [.cancelNotif], cbs, n⟩
+  | .closed => ⟨.cancelled, t, ws, cbs, n⟩
+  | .blocked => ⟨.timedOut, cfg.D, ws, cbs, n⟩
+
 /-- classification of an error code (parameter: the library's `is_retryable_error`) -/
 def errOutcome (isRetryable : Int → Bool) (code : Option Int) (msg : Option String) : Outcome α :=
   let c := code.getD (-32603)
@@ -116,7 +140,7 @@ the number of consumed history entries -/
 def loop (isRetryable : Int → Bool) (cfg : Cfg α) (t : Nat) (ev : List (Nat × In α))
     (ws : List Write) (cbs : List (α × Option α × Option α)) (n : Nat) : Obs α :=
   if cfg.D ≤ t then ⟨.timedOut, cfg.D, ws, cbs, n⟩
-  else if cancelVisible cfg t then ⟨.cancelled, t, ws ++ [.cancelNotif], cbs, n⟩
+  else if cancelVisible cfg t then onCancel cfg t ws cbs n
   else
     let lim := min (t + cfg.P) cfg.D
     match ev with
